@@ -117,14 +117,22 @@ def run(cfg, tier, seed):
     })
 
     # ---- 2. harness against /repo's working tree
-    okb, outb, dtb, dv = lib.cargo_build(cfg.harness_pkg)
-    cov["cargo_build_s"] = round(dtb, 1)
-    if not okb:
-        txt = ["correspondence=%s cannot be established: the harness no longer builds against /repo" % cfg.harness_pkg,
-               "cargo_output=" + outb[-3000:]]
-        rep.violation(lib.save_replay(cfg.prop, txt, "txt"), "harness build failed", True)
-        return rep.finish()
+    pkgs = cfg.harness_pkg if isinstance(cfg.harness_pkg, list) else [cfg.harness_pkg]
+    dvs, dtb_total = {}, 0.0
+    for pkg in pkgs:
+        okb, outb, dtb, dvb = lib.cargo_build(pkg)
+        dtb_total += dtb
+        if not okb:
+            txt = ["correspondence=%s cannot be established: the harness no longer builds against /repo" % pkg,
+                   "cargo_output=" + outb[-3000:]]
+            rep.violation(lib.save_replay(cfg.prop, txt, "txt"), "harness build failed", True)
+            cov["cargo_build_s"] = round(dtb_total, 1)
+            return rep.finish()
+        dvs[pkg] = dvb
+    cov["cargo_build_s"] = round(dtb_total, 1)
+    dv = dvs[pkgs[0]]
     model = lib.model_bin(cfg.model_exe) if (ok and cfg.model_exe) else None
+    default_dv, default_model = dv, model
 
     # ---- 3. streams: corpus first, then generated
     streams = []
@@ -132,12 +140,19 @@ def run(cfg, tier, seed):
     if os.path.isdir(cdir):
         for f in sorted(os.listdir(cdir)):
             if f.endswith(".ops"): streams.append(("corpus/" + f, os.path.join(cdir, f), False))
-    streams += cfg.streams(tier, seed, work, dv)
+    streams += cfg.streams(tier, seed, work, dvs if isinstance(cfg.harness_pkg, list) else dv)
 
     evaluations, distinct, traces_ok = 0, set(), 0
     counters, disagreements, oracle_fail = {}, [], []
     exhaustive_streams = []
-    for name, path, exhaustive in streams:
+    for stream in streams:
+        name, path, exhaustive = stream[:3]
+        # a stream may name its own harness package / model exe (several engines serving one property)
+        dv = dvs[stream[3]] if len(stream) > 3 and stream[3] else default_dv
+        model = (lib.model_bin(stream[4]) if ok else None) if len(stream) > 4 and stream[4] else default_model
+        if hasattr(cfg, "engine_of_corpus") and len(stream) == 3 and name.startswith("corpus/"):
+            pk, mx = cfg.engine_of_corpus(name)
+            dv, model = dvs[pk], (lib.model_bin(mx) if ok else None)
         tag = re.sub(r"\W", "_", name)
         io, mo, st = [os.path.join(work, tag + s) for s in (".impl", ".model", ".stats.json")]
         dt_i = lib.run_impl(dv, path, io, st)
@@ -161,10 +176,10 @@ def run(cfg, tier, seed):
             if len(cov["samples"]) < 3 and len(cops) > 2 and ci % 97 == 3:
                 cov["samples"].append({"stream": name, "ops": cops[:12], "impl": couts[:12]})
             for sig, detail in list(cfg.oracle(cops, couts)) + rust_or.get(ci, []):
-                oracle_fail.append((name, cops, sig, detail))
+                oracle_fail.append((name, cops, sig, detail, dv))
             if mcases is not None:
                 if mcases[ci][1] != couts:
-                    disagreements.append((name, cops, couts, mcases[ci][1]))
+                    disagreements.append((name, cops, couts, mcases[ci][1], dv, model))
                 else:
                     traces_ok += 1
         if exhaustive: exhaustive_streams.append(name)
@@ -179,7 +194,7 @@ def run(cfg, tier, seed):
 
     # ---- 4. oracle failures on the implementation (independent of the model)
     reported = set()
-    for name, cops, sig, detail in oracle_fail:
+    for name, cops, sig, detail, dv in oracle_fail:
         if sig in known:
             rep.known(sig); continue
         if sig in reported: continue
@@ -192,7 +207,7 @@ def run(cfg, tier, seed):
 
     # ---- 5. model/implementation disagreements: shrink, then search for a failing input
     if disagreements and not rep.violations:
-        name, cops, couts, mouts = disagreements[0]
+        name, cops, couts, mouts, dv, model = disagreements[0]
         def differs(c):
             impl, mod = _run_case_files(cfg, dv, model, work, c, "d")
             return impl != mod
